@@ -27,7 +27,8 @@ pairwise with 1-d and 2-d composite shapes, ndarray argument): dimension, indepe
 same span as the exact intersection.  Every state of ProjEigen.tla through
 Transformation.eigenvector (each eigenvalue, None, composite arrays, both layouts: parallel to the
 exact eigenvector and mapped to eigenvalue times itself) and diagonalize (M^-1 T M diagonal with
-the exact spectrum).
+the exact spectrum); composites mixing members with different spectra: every reported vector is mapped to the requested
+eigenvalue times itself (the zero point for members lacking it).
 """
 import json
 import random
@@ -41,7 +42,7 @@ from .. import core
 TOL = 1e-9
 AFF_INVS = ["NonZero", "RescaleInvariant", "LinActs", "TransActs", "EmitObs"]
 SUB_INVS = ["ElimExact", "SpanningSets", "Transverse", "MeetLaws"]
-EIG_INVS = ["InverseKept", "EigenEquation", "Diagonalised", "TraceLaw", "EmitObs"]
+EIG_INVS = ["InverseKept", "EigenEquation", "Diagonalised", "TraceLaw", "AbsentHasNoEigenvector", "EmitObs"]
 SYM_INVS = ["Conformal", "SelfAdjoint", "EigenEquation", "Kinds", "EmitObs"]
 
 
@@ -690,6 +691,53 @@ def replay_eigen(run, m, r, rng, gauss=False):
             except Exception as ex:
                 run.violation(key, "raised:eigen.composite", dict(m=m, shape=list(shp), error=err(ex)))
             run.evaluations += cnt * (m + 1)
+    # composites MIXING spectra: asked for an eigenvalue, every member reports a vector v with T v = lam v -- an element of
+    # the exact eigenspace where the member has the eigenvalue, and (since then no non-zero such vector exists, spec:
+    # AbsentHasNoEigenvector) the degenerate zero point where it has not
+    real = [(T, F, tuple(evs)) for (evs, cplx), items in by_spec.items() if not cplx for T, F, _ in items]
+    if len({e for _, _, e in real}) >= 2:
+        real.sort(key=lambda x: x[0].tobytes())
+        step = max(1, len(real) // 90)
+        mix = real[::step]
+        # interleave the spectra
+        mix = sorted(mix, key=lambda x: hash(x[0].tobytes()) % 997)
+        S = len(mix)
+        values = sorted({v for _, _, e in mix for v in e})
+        for shp in [(S,), (S // 2, 2)]:
+            cnt = int(np.prod(shp))
+            key = "eigen:m=%d:mixed_composite:%r" % (m, shp)
+            run.case(key=key, action="eigenvector.mixed_composite")
+            try:
+                with warnings.catch_warnings():
+                    warnings.simplefilter("ignore")
+                    tr = P.Transformation(np.array([t for t, _, _ in mix[:cnt]]).reshape(shp + (m, m)).copy(), column_vectors=True)
+                    for lam in values:
+                        if not any(lam in e for _, _, e in mix[:cnt]):
+                            continue
+                        d = np.asarray(tr.eigenvector(float(lam)).proj_data)
+                        if d.shape != shp + (m,):
+                            run.violation(key, "eigenvector.composite.shape", dict(m=m, shape=list(shp), got=list(d.shape)))
+                            break
+                        d = d.reshape(cnt, m)
+                        bad = None
+                        for i in range(cnt):
+                            Ti, Fi, ei = mix[i]
+                            ea = np.array(ei, dtype=float)
+                            if over(np.abs(Ti @ d[i] - lam * d[i]).max(), 1e-8 * np.abs(Ti).max() * max(np.abs(d[i]).max(), 1e-300)) \
+                                    or not np.isfinite(d[i]).all():
+                                bad = (i, "eigenvector.composite.mapped_to_multiple")
+                            elif lam in ei and not in_span(d[i], Fi[ea == lam], 1e-7):
+                                bad = (i, "eigenvector.composite.in_exact_eigenspace")
+                            if bad:
+                                run.violation(key + ":lam=%s:%d" % (lam, i), bad[1],
+                                              dict(m=m, shape=list(shp), index=i, T=Ti.tolist(), spectrum=list(ei), requested_eigenvalue=lam,
+                                                   member_has_eigenvalue=lam in ei, library=lst(d[i])))
+                                break
+                        if bad:
+                            break
+            except Exception as ex:
+                run.violation(key, "raised:eigen.mixed_composite", dict(m=m, shape=list(shp), error=err(ex)))
+            run.evaluations += cnt * len(values)
     run.traces += len(r.emits)
     run.nontrivial_count += len(r.emits)
     if r.emits:
